@@ -245,20 +245,23 @@ Qed.
 (* With the flag off the generated parser computes exactly what the parser without its guarded alternatives computes
    (Proofs/ExecStrip.v, C12); so whatever grammar the stripped module reads back as -- the source grammar without the
    alternatives that mention an invalid_ rule -- is the one whose reference semantics the first pass implements. *)
-From Pegen Require Import Proofs.ExecStrip.
+From Pegen Require Import Proofs.ExecStrip Proofs.ExecUnwi.
+(* the module the first pass is equivalent to: guarded alternatives deleted, *_without_invalid marks removed (with the flag
+   off such a method switches nothing) *)
+Definition first_pass_module (M : ir_module) : ir_module := unwi_module (strip_module M).
 Definition strip_rules (inv : alt -> bool) (rs : list rule) : list rule :=
   map (fun r => {| rname := rname r; rtype := rtype r;
                    rrhs := match rrhs r with Rhs id alts => Rhs id (filter (fun a => negb (inv a)) alts) end;
                    rmemo := rmemo r |}) rs.
 
 Theorem first_pass_agrees_with_source K toks M aeval ex td fm rs' :
-  reads_back_with_actions rs' (strip_module M) = true ->
+  reads_back_with_actions rs' (first_pass_module M) = true ->
   (forall xs e vs, nodup_s xs = true -> Forall2 (fun x v => env_get e x = Some v) xs vs ->
      aeval (default_text xs) e = Some (match vs with [v] => v | _ => VList vs end)) ->
   (forall e v vs, env_get e "elem" = Some v -> env_get e "seq" = Some (VList vs) -> aeval "[elem] + seq" e = Some (VList (v :: vs))) ->
-  (forall a, plain_alt (strip_module M) a -> a_explicit a = true -> forall e1 e0,
+  (forall a, plain_alt (first_pass_module M) a -> a_explicit a = true -> forall e1 e0,
      (forall x, In x (conj_vars (a_conjs a)) -> env_get e1 x <> None) -> aeval (a_action a) (e1 ++ e0)%list = aeval (a_action a) e1) ->
-  (forall a, plain_alt (strip_module M) a -> a_explicit a = true -> forall e v, aeval (a_action a) e = Some v -> truthy v = true) ->
+  (forall a, plain_alt (first_pass_module M) a -> a_explicit a = true -> forall e v, aeval (a_action a) e = Some v -> truthy v = true) ->
   (forall s t, In t toks -> is_kind2 s = false -> expect_test K ex td s t = String.eqb (tstr t) s) ->
   (forall s t, In t toks -> is_kind2 s = true -> expect_test K ex td s t = kind2_test K M s t) ->
   forall fuel n st, find_rule rs' n <> None -> invalid st = false ->
@@ -270,18 +273,19 @@ Theorem first_pass_agrees_with_source K toks M aeval ex td fm rs' :
 Proof.
   intros Hrb Ha Hg Hst Htr Hl Hk fuel n st Hn Hi.
   rewrite (strip_equiv K toks false false M aeval ex td fuel n st Hi).
-  exact (run_agrees_with_source_actions K toks (strip_module M) aeval ex td fm rs' Hrb Ha Hg Hst Htr Hl Hk fuel n st Hn).
+  rewrite (unwi_equiv K toks false false (strip_module M) aeval ex td fuel n st Hi).
+  exact (run_agrees_with_source_actions K toks (first_pass_module M) aeval ex td fm rs' Hrb Ha Hg Hst Htr Hl Hk fuel n st Hn).
 Qed.
 
 (* ... and what generated parsers actually run: the first pass WITH the packrat cache (modules without leaders). *)
 Theorem cached_first_pass_agrees_with_source K toks M aeval ex td fm rs' :
-  reads_back_with_actions rs' (strip_module M) = true -> no_left_rec M = true ->
+  reads_back_with_actions rs' (first_pass_module M) = true -> no_left_rec M = true ->
   (forall xs e vs, nodup_s xs = true -> Forall2 (fun x v => env_get e x = Some v) xs vs ->
      aeval (default_text xs) e = Some (match vs with [v] => v | _ => VList vs end)) ->
   (forall e v vs, env_get e "elem" = Some v -> env_get e "seq" = Some (VList vs) -> aeval "[elem] + seq" e = Some (VList (v :: vs))) ->
-  (forall a, plain_alt (strip_module M) a -> a_explicit a = true -> forall e1 e0,
+  (forall a, plain_alt (first_pass_module M) a -> a_explicit a = true -> forall e1 e0,
      (forall x, In x (conj_vars (a_conjs a)) -> env_get e1 x <> None) -> aeval (a_action a) (e1 ++ e0)%list = aeval (a_action a) e1) ->
-  (forall a, plain_alt (strip_module M) a -> a_explicit a = true -> forall e v, aeval (a_action a) e = Some v -> truthy v = true) ->
+  (forall a, plain_alt (first_pass_module M) a -> a_explicit a = true -> forall e v, aeval (a_action a) e = Some v -> truthy v = true) ->
   (forall s t, In t toks -> is_kind2 s = false -> expect_test K ex td s t = String.eqb (tstr t) s) ->
   (forall s t, In t toks -> is_kind2 s = true -> expect_test K ex td s t = kind2_test K M s t) ->
   forall fuel n st, find_rule rs' n <> None -> invalid st = false -> cache st = [] ->
